@@ -112,3 +112,18 @@ M("antijoin-skips-none-group", J, "            if lkval < rkval:\n              
 M("join-squareup-dropped", J, "        self.left = stack(left, missing=missing)\n        self.right = stack(right, missing=missing)\n        if not presorted:\n            self.left = sort(self.left, lkey, buffersize=buffersize,\n                             tempdir=tempdir, cache=cache)\n            self.right = sort(self.right, rkey, buffersize=buffersize,\n                              tempdir=tempdir, cache=cache)\n        self.leftouter",
   "        self.left = left\n        self.right = stack(right, missing=missing)\n        if not presorted:\n            self.left = sort(self.left, lkey, buffersize=buffersize,\n                             tempdir=tempdir, cache=cache)\n            self.right = sort(self.right, rkey, buffersize=buffersize,\n                              tempdir=tempdir, cache=cache)\n        self.leftouter", ["C06"])
 M("crossjoin-prefix-zero-based", J, "text_type(i+1) + '_' + text_type(f)", "text_type(i) + '_' + text_type(f)", ["C06"])
+
+HJ = "transform/hashjoins.py"
+LK = "util/lookups.py"
+# ---- C07 ----------------------------------------------------------------------------------
+M("lookup-keeps-only-last", LK, "            l = dictionary[k]\n            l.append(v)\n            dictionary[k] = l", "            dictionary[k] = [v]", ["C07"])
+M("lookupone-keeps-last", LK, "        elif k not in dictionary:\n            v = getvalue(row)\n            dictionary[k] = v", "        else:\n            v = getvalue(row)\n            dictionary[k] = v", ["C07"])
+M("dictlookupone-strict-ignored", LK, "        if strict and k in dictionary:\n            raise DuplicateKeyError(k)\n        elif k not in dictionary:\n            d = asdict(flds, row)",
+  "        if k not in dictionary:\n            d = asdict(flds, row)", ["C07"])
+M("hashjoin-ignores-cache-false", HJ, "        if not self.cache or self.rlookup is None:\n            self.rlookup = lookup(self.right, self.rkey)", "        if self.rlookup is None:\n            self.rlookup = lookup(self.right, self.rkey)", ["C11"], nth=0)
+M("hashleftjoin-probe-wrong-key", HJ, "    lgetk = operator.itemgetter(*lkind)", "    lgetk = operator.itemgetter(*rkind)", ["C07"], nth=1)
+M("hashrightjoin-no-key-copy", HJ, "            for li, ri in zip(lkind, rkind):\n                outrow[li] = rrow[ri]", "            pass", ["C07"])
+M("hashantijoin-uses-first-key-field", HJ, "    rkeys = set()\n    for rrow in rit:\n        rk = rgetk(rrow)", "    rkeys = set()\n    for rrow in rit:\n        rk = rrow[rkind[0]] if len(rkind) > 1 else rgetk(rrow)", ["C07"])
+M("hashlookupjoin-last-partner", HJ, "    rlookup = lookupone(rit, rkey, strict=False)", "    rlookup = dict((k, v[-1]) for k, v in lookup(rit, rkey).items())", ["C07"])
+M("hashleftjoin-unmatched-dropped-when-cached", HJ, "        else:\n            outrow = list(lrow)  # start with the left row\n            # extend with missing values in place of the right row\n            outrow.extend([missing] * len(rvind))\n            yield tuple(outrow)",
+  "        elif len(rlookup) > 0:\n            outrow = list(lrow)  # start with the left row\n            # extend with missing values in place of the right row\n            outrow.extend([missing] * len(rvind))\n            yield tuple(outrow)", ["C07"], nth=0)
